@@ -61,10 +61,13 @@ pub(crate) struct ConnRec {
 
 #[derive(Default)]
 pub(crate) struct Registry {
-    // key: peer address "ip:port"
+    // key: "<peer ip:port>#<n>", n counting the accepted connections from that peer address
+    // (an abortively closed client port can be reused at once, the address alone is not unique)
     pub(crate) conns: BTreeMap<String, ConnRec>,
-    // peer addresses whose task has finished (registered or refused)
-    pub(crate) task_done: BTreeMap<String, u64>,
+    // accepted connections per peer address
+    pub(crate) accepted: BTreeMap<String, u64>,
+    // refused connections (no slot) per peer address
+    pub(crate) refused: BTreeMap<String, u64>,
 }
 
 lazy_static::lazy_static! {
@@ -101,6 +104,9 @@ fn peer_key(conn_state: &ConnState) -> String {
     .unwrap_or_else(|_| conn_state.verif_key.clone())
 }
 
+#[allow(dead_code)]
+fn _unused() {}
+
 fn publish(rec: &mut ConnRec, conn_state: &ConnState) {
     let us = &conn_state.user_state;
     rec.nick = us.nick.clone();
@@ -121,7 +127,8 @@ fn publish(rec: &mut ConnRec, conn_state: &ConnState) {
 pub(crate) fn reset() {
     let mut reg = REG.lock().unwrap();
     reg.conns.clear();
-    reg.task_done.clear();
+    reg.accepted.clear();
+    reg.refused.clear();
     ENQ.store(0, Ordering::SeqCst);
     SIG_SENT.store(0, Ordering::SeqCst);
     RACE_HITS.store(0, Ordering::SeqCst);
@@ -129,9 +136,14 @@ pub(crate) fn reset() {
 
 // a new connection got its ConnState (it holds a connection slot from now on)
 pub(crate) fn opened(conn_state: &mut ConnState, addr: &std::net::SocketAddr) {
-    conn_state.verif_key = addr.to_string();
-    conn_state.user_state.verif_key = conn_state.verif_key.clone();
     let mut reg = REG.lock().unwrap();
+    let n = {
+        let e = reg.accepted.entry(addr.to_string()).or_insert(0);
+        *e += 1;
+        *e - 1
+    };
+    conn_state.verif_key = format!("{}#{}", addr, n);
+    conn_state.user_state.verif_key = conn_state.verif_key.clone();
     let mut rec = ConnRec::default();
     publish(&mut rec, conn_state);
     reg.conns.insert(conn_state.verif_key.clone(), rec);
@@ -139,11 +151,12 @@ pub(crate) fn opened(conn_state: &mut ConnState, addr: &std::net::SocketAddr) {
     NOTIFY.notify_waiters();
 }
 
-// the per-connection task is over (also for refused connections)
-pub(crate) fn task_done(addr: &std::net::SocketAddr) {
-    let mut reg = REG.lock().unwrap();
-    *reg.task_done.entry(addr.to_string()).or_insert(0) += 1;
-    drop(reg);
+// the per-connection task is over; a connection that never got a slot is counted as refused
+pub(crate) fn task_done(addr: &std::net::SocketAddr, accepted: bool) {
+    if !accepted {
+        let mut reg = REG.lock().unwrap();
+        *reg.refused.entry(addr.to_string()).or_insert(0) += 1;
+    }
     NOTIFY.notify_waiters();
 }
 
